@@ -96,7 +96,8 @@ pub fn coord(rng: &mut Rng, extent: i32, quarter: bool) -> f32 {
         1 | 2 => (-0.5 * e - 2., 1.5 * e + 2.),
         _ => (-1., e + 1.),
     };
-    let v = rng.f32_in(lo, hi);
+    // stay inside the library's working coordinate range also on the very long surfaces
+    let v = rng.f32_in(lo, hi).max(-3500.).min(3500.);
     if quarter {
         (v * 4.).round() / 4.
     } else if rng.chance(1, 4) {
@@ -495,7 +496,11 @@ pub fn gen_stroke_style(rng: &mut Rng, e: i32) -> StrokeSpec {
     };
     let dash_array = if rng.chance(1, 3) {
         let n = 1 + rng.usize(4);
-        (0..n).map(|_| F(if rng.chance(1, 8) { 0. } else { rng.f32_in(0.3, e as f32 + 1.) })).collect()
+        // dashes not shorter than a hundredth of the surface: a dashed outline of tens of
+        // thousands of dashes is legitimate but takes the rasteriser (quadratic edge insertion)
+        // the better part of a minute
+        let shortest = (e as f32 / 100.).max(0.3);
+        (0..n).map(|_| F(if rng.chance(1, 8) { 0. } else { rng.f32_in(shortest, e as f32 + 1.) })).collect()
     } else {
         Vec::new()
     };
